@@ -6,6 +6,7 @@ mod arena;
 mod asyncs;
 mod child;
 mod events;
+mod hook;
 mod interpose;
 mod lifecycle;
 mod locks;
